@@ -276,6 +276,7 @@ def obligations(tier):
         obs.append(ob_query(2, 8, 200))
         obs.append(ob_read_edit_read("insert", 2, 8, 300))
         obs.append(ob_read_edit_read("delete", 1, 8, 300))
+        obs.append(ob_read_edit_read("concatenate", 2, 8, 300))
         obs.append(ob_insert_delete(2, 8, 1, 120))
         obs.append(ob_insert_delete(2, 8, 2, 120))
         obs.append(ob_insert_delete_ties(2, 8, 1, 120))
